@@ -321,3 +321,111 @@ Proof.
     by (destruct hm; reflexivity).
   rewrite D, E, sum_idx_carriers. reflexivity.
 Qed.
+
+(* ---- Variant.states / num_missing / genotype_matrix ----------------------------------------- *)
+
+Lemma states_correct_l mds g al hm st :
+  (hm = true <-> exists k, get g k = Ok MISSING) ->
+  states_model mds (g, al, hm) = Ok st ->
+  length st = length g /\
+  forall k gk, get g k = Ok gk ->
+    (gk = MISSING -> get st k = Ok mds) /\
+    (forall a, gk <> MISSING -> get al gk = Ok a -> get st k = Ok a).
+Proof.
+  intros HM H. unfold states_model in H. destruct hm.
+  - destruct (existsb (allele_eqb mds) al); [discriminate|].
+    destruct (mapM_spec _ _ _ H) as [L P]. split; [assumption|]. intros k gk G.
+    destruct (P _ _ G) as (y & PY & GY). rewrite GY. unfold py_getitem in PY. split.
+    + intros ->. simpl in PY. unfold MISSING in PY.
+      replace (zlen (al ++ [mds]) + -1) with (zlen al) in PY by (unfold zlen; rewrite app_length; simpl; lia).
+      rewrite get_app_r in PY by lia. replace (zlen al - zlen al) with 0 in PY by lia.
+      unfold get in PY; simpl in PY. congruence.
+    + intros a NM GA. pose proof (get_range _ _ _ GA) as R.
+      destruct (gk <? 0) eqn:E; [apply Z.ltb_lt in E; lia|].
+      rewrite get_app_l in PY by assumption. congruence.
+  - destruct (mapM_spec _ _ _ H) as [L P]. split; [assumption|]. intros k gk G.
+    destruct (P _ _ G) as (y & PY & GY). rewrite GY. unfold py_getitem in PY. split.
+    + intros ->. exfalso. assert (false = true) by (apply HM; eauto). discriminate.
+    + intros a NM GA. pose proof (get_range _ _ _ GA) as R.
+      destruct (gk <? 0) eqn:E; [apply Z.ltb_lt in E; lia|]. congruence.
+Qed.
+
+Lemma count_eq_pos_iff g x : 0 < count_eq g x <-> exists k, get g k = Ok x.
+Proof.
+  unfold count_eq, zlen. split.
+  - intros H. destruct (filter (Z.eqb x) g) as [|y r] eqn:F; [simpl in H; lia|].
+    assert (I : In y (filter (Z.eqb x) g)) by (rewrite F; left; reflexivity).
+    apply filter_In in I as [I E]. apply Z.eqb_eq in E. subst y.
+    apply In_nth_error in I as [n Hn]. exists (Z.of_nat n). apply get_nth_error.
+    split; [lia|]. rewrite Nat2Z.id. assumption.
+  - intros [k G]. apply get_In in G.
+    assert (I : In x (filter (Z.eqb x) g)) by (apply filter_In; split; [assumption | apply Z.eqb_refl]).
+    destruct (filter (Z.eqb x) g); [contradiction | simpl; lia].
+Qed.
+
+(* num_missing > 0 iff some genotype is MISSING (so, by has_missing_data_exact, iff has_missing_data) *)
+Lemma num_missing_pos_l g al hm :
+  0 < num_missing_model (g, al, hm) <-> exists k, get g k = Ok MISSING.
+Proof. apply count_eq_pos_iff. Qed.
+
+Lemma num_alleles_l g al hm : num_alleles_model (g, al, hm) = zlen al.
+Proof.
+  unfold num_alleles_model, py_alleles, zlen. rewrite app_length, map_length.
+  destruct hm; simpl; lia.
+Qed.
+
+(* every row of genotype_matrix is the genotypes of the decode of that site *)
+Lemma genotype_matrix_rows_l fuel v sites m :
+  genotype_matrix_model fuel v sites = Ok m ->
+  length m = length sites /\
+  forall i t s, get sites i = Ok (t, s) ->
+    exists row al hm, get m i = Ok row /\ decode fuel t v s = Ok (row, al, hm).
+Proof.
+  intros H. destruct (mapM_spec _ _ _ H) as [L P]. split; [assumption|].
+  intros i t s G. destruct (P _ _ G) as (row & D & GR). simpl in D.
+  destruct (decode fuel t v s) as [[[g al] hm]| | |]; try discriminate. cbn [bind] in D.
+  inversion D; subst. do 3 eexists. split; [exact GR | reflexivity].
+Qed.
+
+(* ---- alignments(), complete model ------------------------------------------------------------- *)
+Definition selected_reference (a : align_in) : list Z :=
+  let left := ai_left2 a / 2 in let right := ai_right2 a / 2 in
+  match ai_ref a with
+  | Some r => r
+  | None => match ai_embedded a with
+            | Some d => firstn (Z.to_nat (right - left)) (skipn (Z.to_nat left) d)
+            | None => repeat (ai_mdc a) (Z.to_nat (right - left))
+            end
+  end.
+
+(* A successful alignments() call: the genome is discrete, the interval is a valid integer
+   interval, no tree has an isolated sample, the reference (argument, else embedded slice, else
+   missing-data characters) has the length of the interval, and row i is that reference
+   overwritten at the site positions with haplotype row i. *)
+Lemma alignments_full_spec_l a out :
+  alignments_full a = Ok out -> NoDup (ai_pos a) ->
+  ai_discrete a = true /\ ai_isolated a = false /\
+  (exists iv, check_range (ai_L2 a) (ai_left2 a) (ai_right2 a) = Ok iv) /\
+  Z.even (ai_left2 a) = true /\ Z.even (ai_right2 a) = true /\
+  zlen (selected_reference a) = ai_right2 a / 2 - ai_left2 a / 2 /\
+  exists rows, haplotypes_model (ai_mdc a) (ai_nsamples a) (ai_results a) = Ok rows /\
+    forall i h, get rows i = Ok h ->
+      exists row, get out i = Ok row /\
+                  overwrite (selected_reference a) (ai_left2 a / 2) (ai_pos a) h = Ok row.
+Proof.
+  unfold alignments_full. intros H ND. fold (selected_reference a) in H.
+  destruct (ai_discrete a); [|discriminate]. simpl in H.
+  destruct (check_range (ai_L2 a) (ai_left2 a) (ai_right2 a)) as [iv| | |] eqn:CR; try discriminate.
+  cbn [bind] in H.
+  destruct (Z.even (ai_left2 a)) eqn:E1; [|discriminate].
+  destruct (Z.even (ai_right2 a)) eqn:E2; [|discriminate]. simpl in H.
+  destruct (zlen (selected_reference a) =? ai_right2 a / 2 - ai_left2 a / 2) eqn:EL; [|discriminate].
+  apply Z.eqb_eq in EL. simpl in H.
+  destruct (ai_isolated a); [discriminate|].
+  destruct (ai_init_error a); [discriminate|].
+  destruct (haplotypes_model (ai_mdc a) (ai_nsamples a) (ai_results a)) as [rows| | |] eqn:HM; try discriminate.
+  cbn [bind] in H.
+  repeat (split; [first [reflexivity | assumption | eauto]|]).
+  exists rows. split; [reflexivity|]. intros i h G.
+  exact (alignment_rows_l _ _ ND _ _ _ H i h G).
+Qed.
